@@ -382,7 +382,7 @@ ParamsSame(s, t, d) ==
 (***************************************************************************)
 GhostInit == [out |-> EmptyF, done |-> EmptyF, doneAt |-> EmptyF,
               escIn |-> EmptyF, escOut |-> EmptyF, minted |-> EmptyF, burned |-> EmptyF,
-              epoch |-> 0, windowSum |-> EmptyF, stranded |-> EmptyF]
+              epoch |-> 0, windowSum |-> EmptyF, stranded |-> EmptyF, made |-> EmptyF]
 
 GhostStep(g, s, e, t) ==
   LET old(f, k, dflt) == IF k \in DOMAIN f THEN f[k] ELSE dflt
@@ -417,6 +417,14 @@ GhostStep(g, s, e, t) ==
                    + (IF e.name = "Claim" /\ e.ok /\ e.id \in Ids(s)
                          /\ ~s.htlc[e.id].transfer /\ s.htlc[e.id].to = MOD
                       THEN AmtOf(s.htlc[e.id], d) ELSE 0)],
+   \* made[id]: the accepted Create messages as they HAPPENED (height of acceptance, time
+   \* lock, parties, amount, secret binding) - the ledger the history twins of the clauses
+   \* below are judged from, instead of the module's own record / queue of the contract
+   made |-> LET new == IF e.name = "Create" /\ e.ok THEN {e.id} ELSE {} IN
+            [i \in DOMAIN g.made \cup new |->
+               IF i \in DOMAIN g.made THEN g.made[i]
+               ELSE [h |-> s.h, lock |-> e.lock, who |-> e.who, to |-> e.to, amt |-> e.amt,
+                     sec |-> e.sec, lts |-> e.lts, ts |-> e.ts, transfer |-> e.transfer]],
    windowSum |-> [d \in DOMAIN t.sup |->
                     IF e.name = "UpdateParams" /\ e.ok /\ ~ParamsSame(s, t, d)
                       THEN t.sup[d].tl                       \* re-based with the new parameters
@@ -474,6 +482,39 @@ C03_ClaimComplete(s, e) ==
      /\ ~s.htlc[e.id].transfer /\ RightSecret(s.htlc[e.id], e.sec))
   => e.ok
 
+(* history twins (audit round 8).  DueOf: the expiration height of an accepted create =
+   the height it was accepted at + the time lock it asked for.  NoOutcome: no accepted
+   claim and no observed refund so far (g.out, from the history). *)
+DueOf(m) == m.h + m.lock
+NoOutcome(g, i) == Get(g.out, i, "none") = "none"
+
+(* C03 "to the recipient iff a claim presents the preimage while the contract is still
+   open", the if-direction judged from the history: the contract of an accepted create
+   that nobody has claimed yet and whose expiration height is still ahead is claimable
+   with its secret - whatever became of its record or its queue entry *)
+C03_ClaimCompleteH(s, e, g) ==
+  (e.name = "Claim" /\ ~e.ok /\ e.id \in DOMAIN g.made) =>
+    LET m == g.made[e.id] IN
+    ~(/\ ~m.transfer /\ e.sec = m.sec /\ m.lts = m.ts
+      /\ NoOutcome(g, e.id) /\ s.h < DueOf(m))
+
+(* C03 "otherwise back to the sender in the first block whose height equals the
+   expiration height", judged from the history: once a block at or beyond the
+   expiration height of an accepted create has begun, the contract has had its outcome
+   (claimed before, or refunded); refunds are seen in the block of that height only *)
+C03_RefundAtExpiryH(s, e, t, g) ==
+  (e.name \in BlockEvents) =>
+    /\ \A i \in DOMAIN g.made : (DueOf(g.made[i]) <= t.h) => ~NoOutcome(g, i)
+    /\ \A i \in ClosedIn(s, t, "refunded") \cap DOMAIN g.made :
+         /\ DueOf(g.made[i]) \in Covered(s, t)
+         /\ (e.name = "BeginBlock") => DueOf(g.made[i]) = t.h
+
+(* C13, judged from the history: every accepted create without an outcome has exactly
+   one queue entry, at its due height *)
+C13_QueueCompleteH(t, g) ==
+  \A i \in DOMAIN g.made : NoOutcome(g, i) =>
+    {x \in t.q : x[2] = i} = {<<DueOf(g.made[i]), i>>}
+
 (* C03: wrong secret, second claim, claim after refund, duplicate create are
    rejected; a rejected message moves nothing *)
 MustReject(s, e) ==
@@ -520,6 +561,8 @@ ExactlyOnceX(s, e, t, g, str(_)) ==
            gone(c) == Escrowed(c) /\ c.state # "open" IN
        /\ Get(g.escIn, d, 0) = SumAmt(t, held, d)
        /\ Get(g.escOut, d, 0) + str(d) = SumAmt(t, gone, d)
+  \* contracts come into being by accepted creates only, one per create (audit round 8)
+  /\ CreatedIn(s, t) \subseteq (IF e.name = "Create" /\ e.ok THEN {e.id} ELSE {})
   /\ (e.name = "Create" /\ e.ok) =>
        /\ e.id \in CreatedIn(s, t)
        /\ LET c == t.htlc[e.id]
@@ -597,7 +640,10 @@ C04_Window(s, e, t) ==
                 w == WinFold(s.params[d], w1, e.dt, e.n - 1) IN
             d \in DOMAIN t.sup /\ t.sup[d].elapsed = w.elapsed /\ t.sup[d].tl = w.tl
   /\ (e.name \notin BlockEvents) =>
-       \A d \in (DOMAIN s.sup) \cap (DOMAIN t.sup) : t.sup[d].elapsed = s.sup[d].elapsed
+       /\ \A d \in (DOMAIN s.sup) \cap (DOMAIN t.sup) : t.sup[d].elapsed = s.sup[d].elapsed
+       \* the recorded previous block time, which the window steps above start from, is
+       \* the block time of the last begin block: no message moves it (audit round 8)
+       /\ t.prev = s.prev
 
 (* C13 (expiry queue) *)
 C13_QueueSound(t) ==
@@ -614,6 +660,11 @@ C13_OnceOnTime(s, e, t, g) ==
        /\ \A x \in t.q : x[1] > t.h
        /\ \A x \in Dequeued(s, t) : x[1] \in Covered(s, t)
        /\ \A i \in ClosedIn(s, t, "refunded") : i \in DOMAIN g.doneAt /\ g.doneAt[i] = s.htlc[i].expiry
+       \* due height from the history (acceptance height + time lock), not from the record
+       /\ \A i \in ClosedIn(s, t, "refunded") \cap DOMAIN g.made :
+            i \in DOMAIN g.doneAt /\ g.doneAt[i] = DueOf(g.made[i])
+       /\ \A i \in DOMAIN g.made : (DueOf(g.made[i]) <= t.h /\ Get(g.out, i, "none") # "toRecipient")
+                                       => (i \in DOMAIN g.done /\ g.done[i] = 1)
   /\ (e.name \notin BlockEvents) =>
        Dequeued(s, t) \subseteq
          (IF e.name = "Claim" /\ e.ok /\ e.id \in Ids(s)
@@ -983,6 +1034,9 @@ Inv_C13_NoHalt == C13_NoHalt(ev)
 Act_C03_StateOrder == [][C03_StateOrder(st, st')]_vars
 Act_C03_ClaimSound == [][C03_ClaimSound(st, ev', st')]_vars
 Act_C03_ClaimComplete == [][C03_ClaimComplete(st, ev')]_vars
+Act_C03_ClaimCompleteH == [][C03_ClaimCompleteH(st, ev', gh')]_vars
+Act_C03_RefundAtExpiryH == [][C03_RefundAtExpiryH(st, ev', st', gh')]_vars
+Act_C13_QueueCompleteH == [][C13_QueueCompleteH(st', gh')]_vars
 Act_C03_RejectionsInert == [][C03_RejectionsInert(st, ev', st')]_vars
 Act_C03_RefundAtExpiry == [][C03_RefundAtExpiry(st, ev', st')]_vars
 Act_C03_ExactlyOnce == [][C03_ExactlyOnce(st, ev', st', gh')]_vars
